@@ -6,7 +6,6 @@ import (
 	"time"
 
 	dtpb "github.com/google/fhir/go/proto/google/fhir/proto/r4/core/datatypes_go_proto"
-	"github.com/shopspring/decimal"
 	"github.com/verily-src/fhirpath-go/internal/fhir"
 	"github.com/verily-src/fhirpath-go/internal/fhirconv"
 )
@@ -147,7 +146,11 @@ func (d Date) Less(input Any) (Boolean, error) {
 // error if it is not a valid time-valued quantity.
 func (d Date) Add(input Quantity) (Date, error) {
 	var result time.Time
-	value := int(decimal.Decimal(input.value).IntPart())
+	amount, err := input.wholeAmount()
+	if err != nil {
+		return Date{}, err
+	}
+	value := int(amount)
 	switch input.unit {
 	case "year", "years":
 		result = addYear(d.date, value)
@@ -164,7 +167,7 @@ func (d Date) Add(input Quantity) (Date, error) {
 
 	// Reformat to truncate date to initial precision. This causes the addition result
 	// to round down to the highest precision value.
-	result, err := time.Parse(string(d.l), result.Format(string(d.l)))
+	result, err = time.Parse(string(d.l), result.Format(string(d.l)))
 	if err != nil {
 		return Date{}, err
 	}
@@ -194,7 +197,11 @@ func (d Date) Sub(input Quantity) (Date, error) {
 
 	// subtract appropriate position of date, for non-partial dates.
 	var result time.Time
-	value := -int(decimal.Decimal(input.value).IntPart())
+	amount, err := input.wholeAmount()
+	if err != nil {
+		return Date{}, err
+	}
+	value := -int(amount)
 	switch input.unit {
 	case "year", "years":
 		result = addYear(d.date, value)
